@@ -71,18 +71,36 @@ Print Assumptions C17_construction_partial.
    sibling of the gate; with at most two operands a gate that does not dominate one of its operands has at most one tree child. ---- *)
 Definition wf_lim (L : circuit) : Prop :=
   closed L ∧ acyclic L ∧
-  ∀ n i, L !! n = Some i → size (n_fi i) ≤ 2 ∧ (is_const (n_ty i) = true → n_fi i = ∅).
+  ∀ n i, L !! n = Some i → size (n_fi i) ≤ 2 ∧ (is_const (n_ty i) = true → n_fi i = ∅) ∧
+                           (n_ty i ≠ Input → is_const (n_ty i) = false → n_fi i ≠ ∅).
 Theorem C17_shape : ∀ L sgs, wf_lim L → supergates L = Ok sgs →
   Forall (λ sg, size (outputs (c_g sg)) = 1 ∧
                 ∀ n, n ∈ gates (c_g sg) → n_ty <$> c_g sg !! n = n_ty <$> L !! n ∧ fanin (c_g sg) n = fanin L n) sgs.
 Proof.
   intros L sgs (Hcl & [rank Hrank] & Hb) H.
   pose proof (supergates_gate_wiring _ _ H) as H2. pose proof (supergates_single_output _ _ H) as H3.
-  pose proof (supergates_fanin_eq L rank Hcl Hrank (λ n i Hi, proj1 (Hb n i Hi)) (λ n i Hi, proj2 (Hb n i Hi)) sgs H) as H4.
+  pose proof (supergates_fanin_eq L rank Hcl Hrank (λ n i Hi, proj1 (Hb n i Hi)) (λ n i Hi, proj1 (proj2 (Hb n i Hi))) sgs H) as H4.
   rewrite Forall_forall in H2, H3, H4 |- *. intros sg Hsg. split; [apply (H3 sg Hsg)|]. intros n Hn.
   split; [apply (H2 sg Hsg n Hn)|apply (H4 sg Hsg n Hn)].
 Qed.
 Print Assumptions C17_shape.
+
+(* ---- the cover clause for single-output circuits (the form the super-circuit needs): every node of the dominator tree
+   has an immediate dominator (strict dominators form a chain), the traversal reaches every tree node, every driven node
+   lies with an operand in some grown set, and with one output the minimal-cover filter keeps every supergate (its root is
+   a gate of no other one).  For several outputs the filter mixes cones; not proved (C17_cover_full below). ---- *)
+Theorem C17_cover_single : ∀ L o sgs, wf_lim L → outputs L = {[o]} → supergates L = Ok sgs →
+  ∀ n, reach L n o → n ∉ inputs L → ∃ sg, sg ∈ sgs ∧ n ∈ gates (c_g sg).
+Proof.
+  intros L o sgs (Hcl & [rank Hrank] & Hb).
+  exact (supergates_cover_single L rank Hcl Hrank (λ n i Hi, proj1 (Hb n i Hi)) (λ n i Hi, proj1 (proj2 (Hb n i Hi)))
+           (λ n i Hi, proj2 (proj2 (Hb n i Hi))) o sgs).
+Qed.
+Print Assumptions C17_cover_single.
+Definition C17_cover_full : Prop := ∀ L sgs, wf_lim L → supergates L = Ok sgs →
+  ∀ n o, o ∈ outputs L → reach L n o → n ∉ inputs L → ∃ sg, sg ∈ sgs ∧ n ∈ gates (c_g sg).
+Definition C17_independence_full : Prop := ∀ L sgs, wf_lim L → supergates L = Ok sgs →
+  Forall (λ sg, ∀ a b x, a ∈ inputs (c_g sg) → b ∈ inputs (c_g sg) → a ≠ b → reach L x a → reach L x b → False) sgs.
 
 (* the order clause for the list the MODEL returns (Kahn rounds over the dependency relation the code hands to
    networkx.topological_sort); the implementation's own order is not modelled and is judged per run by check_topo *)
@@ -112,6 +130,19 @@ Example C17_example_wf : wf_lim ex_shared.
 Proof.
   split; [apply closedb_spec; vm_compute; reflexivity|]. split; [apply acyclicb_sound; vm_compute; reflexivity|].
   apply map_Forall_lookup. apply (bool_decide_unpack _). vm_compute. exact I.
+Qed.
+(* g = and(a,b), h = or(g,c), o = xor(g,h): a single-output circuit for C17_cover_single *)
+Definition ex_single : circuit := mk_g
+  [("a",Input,false,[]);("b",Input,false,[]);("c",Input,false,[]);
+   ("g",And,false,["a";"b"]);("h",Or,false,["g";"c"]);("o",Xor,true,["g";"h"])].
+Example C17_example_single : wf_lim ex_single ∧ outputs ex_single = {["o"]} ∧ ∃ sgs, supergates ex_single = Ok sgs.
+Proof.
+  split; [|split].
+  - split; [apply closedb_spec; vm_compute; reflexivity|]. split; [apply acyclicb_sound; vm_compute; reflexivity|].
+    apply map_Forall_lookup. apply (bool_decide_unpack _). vm_compute. exact I.
+  - apply (bool_decide_unpack _). vm_compute. exact I.
+  - assert (match supergates ex_single with Ok _ => true | _ => false end = true) as H by (vm_compute; reflexivity).
+    destruct (supergates ex_single) as [sgs| | |]; [|discriminate..]. by exists sgs.
 Qed.
 (* the checkers reject: dropping the shared supergate breaks the cover clause *)
 Example C17_example_reject : ∃ sgs, supergates ex_shared = Ok sgs ∧
